@@ -1,5 +1,316 @@
-import EnvVerif.Lemmas.Basic
+/-
+  Props/C10.lean — public-key recipients (`src/extension/recipient.rs`).
+
+  "An envelope whose subject was encrypted to a list of recipients can be opened by every
+  one of them, and by nobody else; encrypting to recipients changes no digest beyond adding
+  the `'hasRecipient'` assertions; adding a recipient never takes the ability to open away
+  from an earlier one; sealed messages of another encapsulation scheme are skipped."
+
+  Model: `Model/Recipient.lean`.  The content key, the nonce and the sealed messages that the
+  library draws from its RNG are explicit arguments.  Vocabulary (`Lemmas/RecipientLemmas.lean`,
+  `Lemmas/RecipientLaws.lean`):
+  * `RecL.sealsFor S ck krs` — the sealed messages `S.sealTo k (content key as tagged CBOR) r`
+    for the recipients `krs = [(k, r), ..]` (key id, sender's randomness);
+  * `RecL.recAs h sealeds` — the assertions `'hasRecipient': s` for `s ∈ sealeds`;
+  * `RecL.opens K key s` — what `first_plaintext_in_sealed_messages` gets from one sealed
+    message: `none` when its scheme differs from the key's, else `K.unsealMsg key s`;
+  * `RecL.NoShadow e l` — among the assertions of `e` and the assertions `l` about to be added,
+    only an assertion itself carries its digest.  It is needed because
+    `add_assertion_envelope` silently ignores an assertion whose digest is already carried by
+    an element (e.g. an elided placeholder with that digest): such a recipient is *not*
+    added (`c10_shadowed_recipient_lost` below is the witness).
+
+  Hypotheses (never axioms): `Inv h e`, `hH` (the hash returns 32 bytes), `RoundTrips h x`
+  for the one envelope that is encrypted (conclusion of C05), `AeadLaws A`, `KemLaws K S`
+  (both satisfied by toy instances: `ToyDeps.toyAead_laws`, `ToyRec.kem_laws`).
+-/
+import EnvVerif.Lemmas.RecipientLemmas
 namespace EnvVerif
-/-- placeholder while the property theorems are being written -/
-theorem c10_sort_asc_id {as : List Env} (hs : AscDigests as) : sortByDigest as = as := sortByDigest_of_asc hs
+open Env ToyDeps ToyRec RecL RecL.Ex
+
+section
+variable (h : Hash) (A : Aead)
+
+/-! ### every recipient opens -/
+
+/-- C10: every listed recipient opens the envelope built by `encrypt_subject_to_recipients`,
+and what it gets is *exactly* the original envelope with the `'hasRecipient'` assertions
+added (same subject, the stored assertions and the digest of the encrypted envelope).
+`olds` are the sealed messages already present in `e` (none, normally); a recipient may
+open such an earlier one only if it holds the same content key. -/
+theorem c10_each_recipient_opens {K : Kem} {S : Sealer} (LA : AeadLaws A) (LK : KemLaws K S)
+    (ck n : Bytes) (krs : List (Nat × Nat)) (e r : Env) (olds : List Cbor)
+    (hi : Inv h e) (hH : ∀ b, (h.H b).Valid) (hrt : RoundTrips h e.subject) (hck : ck.length = 32)
+    (hold : recipients h e = .ok olds)
+    (hns : NoShadow e (recAs h (sealsFor S ck krs)))
+    (hr : encryptSubjectToRecipients h A ck n (sealsFor S ck krs) e = .ok r) :
+    ∀ k ∈ krs.map Prod.fst,
+      (∀ s ∈ olds, ∀ q, opens K k s = some q → q = (symmetricKeyCbor ck).enc) →
+      ∃ x, decryptSubjectToRecipient h A K k r = .ok x ∧
+        x.subject = e.subject ∧ x.assertions = r.assertions ∧ x.digest = r.digest ∧
+        (sealsFor S ck krs).foldl (fun (acc : Res Env) s => acc.bind fun y => addRecipient h y s)
+          (Res.ok e) = .ok x := by
+  intro k hk holds
+  obtain ⟨rfl, _⟩ := encryptSubjectToRecipients_ok h A hi hH hr
+  refine ⟨builtPlain h (sealsFor S ck krs) e,
+    recipient_opens h A LA LK hi hH hrt hck n krs hold hk holds hns,
+    builtPlain_subject h _ hi, ?_, (built_digest h A ck n _ e).symm,
+    addRecipients_closed_inv h hi _⟩
+  rw [builtPlain_assertions h _ hi, built_assertions]
+
+/- all hypotheses hold together (toy hash, AEAD and KEM; `"b" [ 1: 10 ]` encrypted to the
+keys 1 and 2): both open and get the subject back -/
+example : ∃ r, encryptSubjectToRecipients H toyAead ck [1] (sealsFor sealer ck krs) nd = .ok r ∧
+    ∀ k ∈ [1, 2], ∃ x, decryptSubjectToRecipient H toyAead kem k r = .ok x ∧
+      x.subject = nd.subject := by
+  have hr := encryptSubjectToRecipients_eq H toyAead ck [1] (sealsFor sealer ck krs) nd_inv hash_valid
+  rw [show Obs.encryptRefusal nd = none from rfl] at hr
+  refine ⟨_, hr, ?_⟩
+  intro k hk
+  obtain ⟨x, hx, hs, _⟩ := c10_each_recipient_opens H toyAead toyAead_laws kem_laws ck [1] krs nd _ []
+    nd_inv hash_valid subj_rt ck_len nd_recipients nd_noShadow hr k hk (by simp)
+  exact ⟨x, hx, hs⟩
+
+/-! ### only a recipient opens -/
+
+/-- C10: a key that is not in the list (and that opens none of the sealed messages already
+present in `e`) gets `UnknownRecipient` -/
+theorem c10_non_recipient_fails {K : Kem} {S : Sealer} (LK : KemLaws K S)
+    (ck n : Bytes) (krs : List (Nat × Nat)) (e r : Env) (olds : List Cbor)
+    (hi : Inv h e) (hH : ∀ b, (h.H b).Valid) (hold : recipients h e = .ok olds)
+    (hr : encryptSubjectToRecipients h A ck n (sealsFor S ck krs) e = .ok r)
+    (k : Nat) (hk : k ∉ krs.map Prod.fst) (holds : ∀ s ∈ olds, opens K k s = none) :
+    decryptSubjectToRecipient h A K k r = .err "UnknownRecipient" := by
+  obtain ⟨rfl, _⟩ := encryptSubjectToRecipients_ok h A hi hH hr
+  exact non_recipient_refused h A LK ck n krs hold hk holds
+
+example : ∃ r, encryptSubjectToRecipients H toyAead ck [1] (sealsFor sealer ck krs) nd = .ok r ∧
+    decryptSubjectToRecipient H toyAead kem 3 r = .err "UnknownRecipient" := by
+  have hr := encryptSubjectToRecipients_eq H toyAead ck [1] (sealsFor sealer ck krs) nd_inv hash_valid
+  rw [show Obs.encryptRefusal nd = none from rfl] at hr
+  exact ⟨_, hr, c10_non_recipient_fails H toyAead kem_laws ck [1] krs nd _ [] nd_inv hash_valid
+    nd_recipients hr 3 (by decide) (by simp)⟩
+
+/-! ### digests -/
+
+/-- C10: the subject keeps its digest (and is encrypted); the digest of the result is the
+digest of the envelope obtained by adding the same `'hasRecipient'` assertions *without*
+encrypting, which has the same stored assertions and the original subject; with no
+recipient the digest is the original one -/
+theorem c10_digest_preserved (ck n : Bytes) (sealeds : List Cbor) (e r : Env)
+    (hi : Inv h e) (hH : ∀ b, (h.H b).Valid)
+    (hr : encryptSubjectToRecipients h A ck n sealeds e = .ok r) :
+    r.subject.digest = e.subject.digest ∧ r.subject.isEncrypted = true ∧
+    (∃ r0, sealeds.foldl (fun (acc : Res Env) s => acc.bind fun y => addRecipient h y s) (Res.ok e)
+        = .ok r0 ∧ r.digest = r0.digest ∧ r.assertions = r0.assertions ∧ r0.subject = e.subject) ∧
+    (sealeds = [] → r.digest = e.digest) := by
+  obtain ⟨rfl, _⟩ := encryptSubjectToRecipients_ok h A hi hH hr
+  refine ⟨by rw [built_subject]; rfl, by rw [built_subject]; rfl,
+    ⟨builtPlain h sealeds e, addRecipients_closed_inv h hi _, built_digest h A ck n _ e, ?_,
+      builtPlain_subject h _ hi⟩, ?_⟩
+  · rw [builtPlain_assertions h _ hi, built_assertions]
+  · rintro rfl
+    rw [built_digest]
+    simp only [builtPlain, recAs, List.map_nil, List.foldl_nil, (AW.rebuild_of_inv hi).1]
+
+example : ∃ r, encryptSubjectToRecipients H toyAead ck [1] (sealsFor sealer ck krs) nd = .ok r ∧
+    r.subject.digest = nd.subject.digest := by
+  have hr := encryptSubjectToRecipients_eq H toyAead ck [1] (sealsFor sealer ck krs) nd_inv hash_valid
+  rw [show Obs.encryptRefusal nd = none from rfl] at hr
+  exact ⟨_, hr, (c10_digest_preserved H toyAead ck [1] _ nd _ nd_inv hash_valid hr).1⟩
+
+/-! ### adding a recipient -/
+
+/-- C10: `add_recipient` keeps the subject; the sealed messages found by `recipients()` are
+the earlier ones plus (unless shadowed) the new one; and every key that does not open the new
+sealed message and could open the envelope before can open it afterwards (to an envelope
+with the digest and the stored assertions of the new one) -/
+theorem c10_add_recipient_monotone {K : Kem} (e r : Env) (s : Cbor) (hi : Inv h e)
+    (hs : ∃ x, s = .tagged TAG_SEALED_MESSAGE x) (hr : addRecipient h e s = .ok r) :
+    r.subject = e.subject ∧
+    (∀ l, recipients h e = .ok l →
+      ∃ l', recipients h r = .ok l' ∧ (∀ x ∈ l, x ∈ l') ∧ (∀ x ∈ l', x ∈ l ∨ x = s) ∧
+        (NoShadow e [hasRecipientAssertion h s] → s ∈ l')) ∧
+    (∀ k x, opens K k s = none → decryptSubjectToRecipient h A K k e = .ok x →
+      ∃ x', decryptSubjectToRecipient h A K k r = .ok x' ∧ x'.digest = r.digest ∧
+        x'.assertions = r.assertions) := by
+  refine ⟨?_, fun l hl => addRecipient_recipients h hi hs hr hl,
+    fun k x hno hx => addRecipient_keeps h A hi hs hr hno hx⟩
+  rw [addRecipient_eq] at hr
+  exact addAssertionEnvelope_subject h hr
+
+/-- ... in particular with the sealing side of `KemLaws`: sealing to `k'` disturbs no other
+key -/
+theorem c10_add_recipient_other_keys {K : Kem} {S : Sealer} (LK : KemLaws K S) (e r : Env)
+    (k' : Nat) (p : Bytes) (rnd : Nat) (hi : Inv h e)
+    (hr : addRecipient h e (S.sealTo k' p rnd) = .ok r) (k : Nat) (hk : k ≠ k') (x : Env)
+    (hx : decryptSubjectToRecipient h A K k e = .ok x) :
+    ∃ x', decryptSubjectToRecipient h A K k r = .ok x' ∧ x'.digest = r.digest :=
+  let ⟨x', h1, h2, _⟩ := (c10_add_recipient_monotone h A e r _ hi (LK.tagged _ _ _) hr).2.2 k x
+    (opens_seal_other LK _ _ hk) hx
+  ⟨x', h1, h2⟩
+
+/- recipient 1 opens the envelope encrypted to 1 and 2, also after 4 was added -/
+example : ∃ r r', encryptSubjectToRecipients H toyAead ck [1] (sealsFor sealer ck krs) nd = .ok r ∧
+    addRecipient H r (sealer.sealTo 4 (symmetricKeyCbor ck).enc 0) = .ok r' ∧
+    ∃ x', decryptSubjectToRecipient H toyAead kem 1 r' = .ok x' ∧ x'.digest = r'.digest := by
+  have hr := encryptSubjectToRecipients_eq H toyAead ck [1] (sealsFor sealer ck krs) nd_inv hash_valid
+  rw [show Obs.encryptRefusal nd = none from rfl] at hr
+  obtain ⟨x, hx, _⟩ := c10_each_recipient_opens H toyAead toyAead_laws kem_laws ck [1] krs nd _ []
+    nd_inv hash_valid subj_rt ck_len nd_recipients nd_noShadow hr 1 (by decide) (by simp)
+  have hri : Inv H (built H toyAead ck [1] (sealsFor sealer ck krs) nd) := by
+    have := Obs.encryptSubjectSpec_inv H toyAead ck [1] nd_inv hash_valid
+    obtain ⟨r0, h0⟩ := addRecipient_isOk H (Obs.encryptSubjectSpec toyAead ck [1] nd)
+      (sealer.sealTo 1 (symmetricKeyCbor ck).enc 0)
+    exact rebuild_inv H (Obs.inv_subject this)
+      (fun a ha => by
+        rcases mem_foldl_normAdd_sub _ ha with h1 | h1
+        · simp only [nd, Env.assertions, List.mem_singleton] at h1
+          subst h1
+          exact ⟨by simp [a1, WF, newAssertion, newLeaf, newKnownValue, Env.digest],
+            by simp [a1, Canon, newAssertion, newLeaf, newKnownValue]⟩
+        · simp only [recAs, List.mem_map] at h1
+          obtain ⟨s, _, rfl⟩ := h1
+          exact ⟨by simp [hasRecipientAssertion, WF, newAssertion, newLeaf, newKnownValue, Env.digest],
+            by simp [hasRecipientAssertion, Canon, newAssertion, newLeaf, newKnownValue]⟩)
+      (asc_foldl_normAdd H nd_inv _)
+      (fun a ha => by
+        rcases mem_foldl_normAdd_sub _ ha with h1 | h1
+        · simp only [nd, Env.assertions, List.mem_singleton] at h1
+          subst h1; rfl
+        · simp only [recAs, List.mem_map] at h1
+          obtain ⟨s, _, rfl⟩ := h1; rfl)
+  obtain ⟨r', hr'⟩ := addRecipient_isOk H (built H toyAead ck [1] (sealsFor sealer ck krs) nd)
+    (sealer.sealTo 4 (symmetricKeyCbor ck).enc 0)
+  exact ⟨_, r', hr, hr', c10_add_recipient_other_keys H toyAead kem_laws _ r' 4 _ 0 hri hr' 1
+    (by decide) x hx⟩
+
+/-- the reason for `NoShadow`: when the envelope already carries an element with the digest of
+the new `'hasRecipient'` assertion (here: its elided form), `add_recipient` changes nothing,
+and the recipient is *not* added — for every hash, sealed message and subject -/
+theorem c10_shadowed_recipient_lost (s : Cbor) (subject : Env) (d : Digest) :
+    addRecipient h (.node subject [.elided (hasRecipientAssertion h s).digest] d) s =
+      .ok (.node subject [.elided (hasRecipientAssertion h s).digest] d) ∧
+    recipients h (.node subject [.elided (hasRecipientAssertion h s).digest] d) = .ok [] := by
+  constructor
+  · simp [addRecipient, addAssertionEnvelope, hasRecipientAssertion, newAssertion, slotOk,
+      isSubjectAssertion, Env.digest]
+  · simp [recipients, assertionsWithPredicate, Env.assertions, Env.subject, asPredicate,
+      recipientsLoop]
+
+/-! ### the wrapped whole -/
+
+/-- C10: `decrypt_to_recipient(encrypt_to_recipient(e)) = e` for the recipient, and
+`UnknownRecipient` for every other key -/
+theorem c10_encryptToRecipient_roundtrip {K : Kem} {S : Sealer} (LA : AeadLaws A)
+    (LK : KemLaws K S) (ck n : Bytes) (k rnd : Nat) (e r : Env) (hi : Inv h e)
+    (hH : ∀ b, (h.H b).Valid) (hrt : RoundTrips h (wrap h e)) (hck : ck.length = 32)
+    (hr : encryptToRecipient h A ck n (S.sealTo k (symmetricKeyCbor ck).enc rnd) e = .ok r) :
+    decryptToRecipient h A K k r = .ok e ∧
+      ∀ k', k' ≠ k → decryptToRecipient h A K k' r = .err "UnknownRecipient" := by
+  have hr' : encryptSubjectToRecipients h A ck n (sealsFor S ck [(k, rnd)]) (wrap h e) = .ok r := by
+    unfold encryptToRecipient at hr
+    cases hx : encryptSubjectToRecipients h A ck n [S.sealTo k (symmetricKeyCbor ck).enc rnd]
+        (wrap h e) with
+    | ok r' => rw [hx] at hr; cases hr; rfl
+    | err y => rw [hx] at hr; cases hr
+    | panic y => rw [hx] at hr; cases hr
+  have hiw := Obs.inv_wrap hi
+  have hns : NoShadow (wrap h e) (recAs h (sealsFor S ck [(k, rnd)])) := by
+    intro a ha y hy _
+    rcases hy with hy | hy
+    · cases hy
+    · simp only [recAs, sealsFor, List.map_cons, List.map_nil, List.mem_singleton] at ha hy
+      rw [ha, hy]
+  constructor
+  · obtain ⟨x, hx, hsub, _⟩ := c10_each_recipient_opens h A LA LK ck n [(k, rnd)] (wrap h e) r []
+      hiw hH hrt hck (recipients_wrap h e) hns hr' k (by simp) (by simp)
+    unfold decryptToRecipient
+    rw [hx]
+    show unwrap x = .ok e
+    unfold unwrap
+    rw [hsub]
+    rfl
+  · intro k' hk'
+    unfold decryptToRecipient
+    rw [c10_non_recipient_fails h A LK ck n [(k, rnd)] (wrap h e) r [] hiw hH (recipients_wrap h e)
+      hr' k' (by simpa using hk') (by simp)]
+    rfl
+
+example : ∃ r, encryptToRecipient H toyAead ck [1] (sealer.sealTo 2 (symmetricKeyCbor ck).enc 0) subj
+      = .ok r ∧
+    decryptToRecipient H toyAead kem 2 r = .ok subj ∧
+    decryptToRecipient H toyAead kem 1 r = .err "UnknownRecipient" := by
+  have hr := encryptSubjectToRecipients_eq H toyAead ck [1]
+    [sealer.sealTo 2 (symmetricKeyCbor ck).enc 0] (Obs.inv_wrap subj_inv) hash_valid
+  rw [show Obs.encryptRefusal (wrap H subj) = none from rfl] at hr
+  have hr2 : encryptToRecipient H toyAead ck [1] (sealer.sealTo 2 (symmetricKeyCbor ck).enc 0) subj =
+      .ok (built H toyAead ck [1] [sealer.sealTo 2 (symmetricKeyCbor ck).enc 0] (wrap H subj)) := by
+    unfold encryptToRecipient
+    rw [hr]
+  obtain ⟨h1, h2⟩ := c10_encryptToRecipient_roundtrip H toyAead toyAead_laws kem_laws ck [1] 2 0 subj _
+    subj_inv hash_valid wrap_subj_rt ck_len hr2
+  exact ⟨_, hr2, h1, h2 1 (by decide)⟩
+
+/-! ### no panic -/
+
+/-- C10: none of the recipient operations panics: `recipients()` and `add_recipient` on any
+envelope; `decrypt_subject_to_recipient` / `decrypt_to_recipient` on a canonical one;
+`encrypt_subject_to_recipients` on an envelope satisfying the invariant, and
+`encrypt_to_recipient` (whose `unwrap()` would panic on an error) always succeeds there -/
+theorem c10_no_panic {K : Kem} (e : Env) (p : String) :
+    recipients h e ≠ .panic p ∧
+    (∀ s, addRecipient h e s ≠ .panic p) ∧
+    (Canon e → ∀ key, decryptSubjectToRecipient h A K key e ≠ .panic p ∧
+      decryptToRecipient h A K key e ≠ .panic p) ∧
+    (Inv h e → (∀ b, (h.H b).Valid) → ∀ ck n,
+      (∀ sealeds, encryptSubjectToRecipients h A ck n sealeds e ≠ .panic p) ∧
+      (∀ s, ∃ r, encryptToRecipient h A ck n s e = .ok r)) := by
+  refine ⟨recipients_np h e p, ?_, ?_, ?_⟩
+  · intro s
+    obtain ⟨r, hr⟩ := addRecipient_isOk h e s
+    rw [hr]; intro hh; cases hh
+  · intro hc key
+    exact ⟨decryptSubjectToRecipient_np h A (canon_node_ne hc) p,
+      decryptToRecipient_np h A (canon_node_ne hc) p⟩
+  · intro hi hH ck n
+    constructor
+    · intro sealeds
+      rw [encryptSubjectToRecipients_eq h A ck n sealeds hi hH]
+      cases Obs.encryptRefusal e <;> (intro hh; cases hh)
+    · intro s
+      unfold encryptToRecipient
+      rw [encryptSubjectToRecipients_eq h A ck n [s] (Obs.inv_wrap hi) hH]
+      exact ⟨_, rfl⟩
+
+example (p : String) : decryptSubjectToRecipient H toyAead kem 1 nd ≠ .panic p :=
+  ((c10_no_panic H toyAead (K := kem) nd p).2.2.1 nd_inv.2 1).1
+
+/-! ### foreign schemes -/
+
+/-- C10 (the repaired `first_plaintext_in_sealed_messages`): a sealed message whose
+encapsulation scheme differs from the key's is never handed to `unseal`: the outcome does not
+depend on what `unseal` would do with it (two KEMs that agree on the schemes and on the
+messages of the key's own scheme give the same outcome), and such a message can be dropped
+from the list without changing what is found -/
+theorem c10_scheme_mismatch_skipped (K K' : Kem) (key : Nat) (e : Env)
+    (hs : K'.schemeOfSealed = K.schemeOfSealed) (hk : K'.schemeOfKey key = K.schemeOfKey key)
+    (hu : ∀ s, K.schemeOfSealed s = K.schemeOfKey key → K'.unsealMsg key s = K.unsealMsg key s) :
+    decryptSubjectToRecipient h A K' key e = decryptSubjectToRecipient h A K key e ∧
+    ∀ s l1 l2, K.schemeOfSealed s ≠ K.schemeOfKey key →
+      firstPlaintext K key (l1 ++ s :: l2) = firstPlaintext K key (l1 ++ l2) :=
+  ⟨decryptSubjectToRecipient_congr h A e (opens_congr hs hk hu),
+    fun _ l1 l2 hm => firstPlaintext_skip_mismatch hm l1 l2⟩
+
+/- a KEM that would wrongly "open" messages of the other scheme gives the same outcome -/
+example (e : Env) :
+    decryptSubjectToRecipient H toyAead
+      ⟨fun key s => if kem.schemeOfSealed s = kem.schemeOfKey key then kem.unsealMsg key s else some [],
+        kem.schemeOfSealed, kem.schemeOfKey⟩ 1 e =
+    decryptSubjectToRecipient H toyAead kem 1 e :=
+  (c10_scheme_mismatch_skipped H toyAead kem
+    ⟨fun key s => if kem.schemeOfSealed s = kem.schemeOfKey key then kem.unsealMsg key s else some [],
+      kem.schemeOfSealed, kem.schemeOfKey⟩ 1 e rfl rfl (by intro s hs; simp only [hs, if_true])).1
+
+end
 end EnvVerif
